@@ -116,7 +116,13 @@ impl<'tcx> Cx<'tcx> {
                 ProjectionElem::Deref => s.push_str("\"*\""),
                 ProjectionElem::Field(f, _) => {
                     let name = self.field_name(pty, f.as_usize());
-                    let _ = write!(s, "[\"F\",{},{}]", f.as_usize(), esc(&name));
+                    let owner = match pty.ty.kind() {
+                        ty::Adt(adt, _) => self.path(adt.did()),
+                        ty::Closure(..) => "{closure}".to_string(),
+                        ty::Tuple(..) => "()".to_string(),
+                        _ => String::new(),
+                    };
+                    let _ = write!(s, "[\"F\",{},{},{}]", f.as_usize(), esc(&name), esc(&owner));
                 }
                 ProjectionElem::Downcast(sym, vidx) => {
                     let name = match sym {
